@@ -6,13 +6,6 @@ import os
 VERIF = os.path.dirname(os.path.dirname(os.path.abspath(__file__)))
 
 NOT_APPLICABLE = {
-    "C01": "every clause is a byte-for-byte equality between computed contents for all (A,B), context widths and header "
-           "dialects (off-by-one coordinates, splice arithmetic, terminator preservation); no static rule separates a right "
-           "formula from a wrong one without evaluating it, and evaluation (concrete or symbolic) is another family. "
-           "See DESIGN.md §4 C01.",
-    "C03": "equality of the patched line vector with an independent reconstruction, incl. overlapping contexts after offset "
-           "placement: a relation between runtime coordinates (line, modification_offset, last_frozen_line). The only structural "
-           "trait (two-phase apply) is not a necessary condition of the property. See DESIGN.md §4 C03.",
 }
 
 TECHNIQUE = {
@@ -20,6 +13,10 @@ TECHNIQUE = {
            "(Range/rev/interleave over expected line, file length, hunk length) deciding completeness and nearest-first order",
     "C04": "typestate pairing over MIR field writes (apply vs rollback), who-may-call rule on the aborting rollback API, LIFO iterator typing",
     "C05": "MIR dominance / must-pass-through ordering rules on both drivers and cmd_push (record-after-save, rollback-before-save, exit status)",
+    "C01": "term-level checks (finite-order model) of the header-number -> position convention and of the direction -> side tables, "
+           "guard-dominance rule for the creation / deletion classification, plus the splice rules of C03",
+    "C03": "term-level check of the two-phase splice (finite-order model of range bounds and the running offset), loop-shape rules "
+           "for report alignment, path-restricted difference-bound proof that a hunk is applied at or after the frozen line",
     "C07": "shape analysis of the disjoint-set forest: every mutation of the parent vector classified as registration / link of two "
            "roots / flattening pass, root function returns only checked roots, difference-bound proof that links keep parent <= child, "
            "thread index a function of the root",
